@@ -16,6 +16,8 @@ NUM_SPELLINGS = [
     ("7.", 7.0), ("007", 7), (".5", 0.5), ("0.25", 0.25), ("1.5", 1.5), ("2.75", 2.75), ("5E1", 50.0), ("1E2", 100.0),
     ("25E-1", 2.5), ("1.5E+1", 15.0), ("3.0", 3.0), ("0.125", 0.125), ("11", 11), ("13", 13), ("4", 4), ("6", 6), ("9", 9),
     ("1234567", 1234567), ("3.141593", 3.141593), ("16777216", 16777216), ("1E-3", 0.001), ("2.5E-2", 0.025), ("123456.75", 123456.75),
+    # magnitudes that Python prints in exponent notation (below 1E-4, from 1E16)
+    ("1.25E-5", 1.25e-05), ("1E-7", 1e-07), ("1E16", 1e16), ("2.5E+20", 2.5e20), (".00001234", 1.234e-05),
 ]
 INT_SPELLINGS = [s for s in NUM_SPELLINGS if float(s[1]) == int(s[1]) and "E" not in s[0] and "." not in s[0]]
 # Color BASIC accepts the two-character relational operators in either order
@@ -52,6 +54,7 @@ class Gen:
         self.nested_fn = False
         self.odd_spelling = False
         self.in_ifelse_cond = False
+        self._in_subscript = False
 
     # ------------------------------------------------------------- helpers
     def d(self, s):
@@ -129,11 +132,35 @@ class Gen:
         return name, bounds
 
     def subscript(self, bound):
-        r = self.d(st.integers(0, 5))
-        if r == 0:
+        r = self.d(st.integers(0, 7))
+        if r == 0 or bound == 0:
             return ["num", "0", 0]
         if r == 1:
             return ["num", str(bound), bound]
+        if r >= 6 and not self._in_subscript:
+            # a computed subscript kept in range by AND with 2^k-1 <= bound: variable, arithmetic, converted call, another array's element
+            mask = 1
+            while mask * 2 + 1 <= bound:
+                mask = mask * 2 + 1
+            self._in_subscript = True
+            try:
+                q = self.d(st.integers(0, 3))
+                if q == 0:
+                    inner = self.int_leaf()
+                elif q == 1:
+                    inner = ["par", self.integer(1)]
+                elif q == 2 and self.conv_ok():
+                    self.n_conv += 1
+                    inner = ["fn", "INT", [self.num_leaf()]]
+                elif self.arrays:
+                    inner = self.num_elem()
+                    self.labels.hit("subscript_is_array_element")
+                else:
+                    inner = self.int_leaf()
+            finally:
+                self._in_subscript = False
+            self.labels.hit("computed_subscript")
+            return ["bin", "AND", inner, ["num", str(mask), mask]]
         v = self.d(st.integers(0, bound))
         return ["num", str(v), v]
 
